@@ -603,7 +603,7 @@ SCENARIOS = [sc_misc, sc_linearity, sc_fullsimplify, sc_identity_eval, sc_substi
              sc_series, sc_deriv, sc_eq_rules, sc_defs, sc_lemma, sc_substitution, sc_substitution_targeted, sc_algebra, sc_equation]
 
 
-def run_chain(vctx, mon, ctxspec, e_sh_json, chain, tag, collect=None):
+def run_chain(vctx, mon, ctxspec, e_sh_json, chain, tag, collect=None, identity=None):
     """execute the chain of rule descriptors at top level; returns number of accepted steps"""
     from vf.props.c19 import mk_rule
     ctx = make_ctx(ctxspec)
@@ -612,6 +612,8 @@ def run_chain(vctx, mon, ctxspec, e_sh_json, chain, tag, collect=None):
     for pos, rd in enumerate(chain):
         mon.driver = {'kind': 'gen', 'ctx': ctxspec, 'e': e_sh_json, 'chain': chain, 'pos': pos, 'tag': tag,
                       'case': h64(json.dumps([ctxspec, e_sh_json], sort_keys=True))}
+        if identity is not None:
+            mon.driver['identity'] = identity
         mon.last = None
         try:
             with quiet():
@@ -677,11 +679,161 @@ def run_generated(vctx, mon, count):
 def replay_driver(vctx, mon, drv, w):
     kind = drv.get('kind')
     if kind == 'gen':
-        run_chain(vctx, mon, drv['ctx'], drv['e'], drv['chain'][:drv['pos'] + 1], drv.get('tag', 'replay'))
+        if drv.get('identity'):
+            O.ENABLE_OSC = True
+        run_chain(vctx, mon, drv['ctx'], drv['e'], drv['chain'][:drv['pos'] + 1], drv.get('tag', 'replay'),
+                  identity=drv.get('identity'))
     elif kind == 'aux':
         aux_one(vctx, mon, drv['check'], drv['ctx'], drv['e'], drv.get('extra'))
     else:
         vctx.note('replay: unknown driver %r' % (drv,))
+
+
+# ------------------------------------------------------------------------------------------ identity side conditions
+NEG_REL = {'>': '<', '>=': '<', '<': '>', '<=': '>', '!=': '=', '=': '!='}
+
+
+def negate_cond(c):
+    """a condition (string) that contradicts c with a margin: x > 0 -> x < 0, x <= 1 -> x > 1, n != -1 -> n = -1"""
+    e = P(c)
+    if not (e.is_op() and len(e.args) == 2 and e.op in NEG_REL):
+        return None
+    return '%s %s %s' % (_par(e.args[0]), NEG_REL[e.op], _par(e.args[1]))
+
+
+def _par(x):
+    s = str(x)
+    return s if (x.is_var() or (x.is_const() and x.val >= 0) or x.is_fun()) else '(%s)' % s
+
+
+def conditioned_identities(book):
+    """every item of the book file (not its imports) that carries side conditions, read as data"""
+    import os
+    from vf.core import REPO
+    with open(os.path.join(REPO, 'integral', 'examples', book + '.json'), encoding='utf-8') as f:
+        d = json.load(f)
+    out = []
+    for it in d.get('content', []):
+        if it.get('conds') and it.get('expr') and it.get('type') in ('axiom', 'problem'):
+            out.append(it)
+    return out
+
+
+def identity_rules(it):
+    """(start expression string, rule chain, tag) for every rule that can apply the identity"""
+    e = P(it['expr'])
+    if not e.is_equals():
+        return []
+    lhs, rhs = e.lhs, e.rhs
+    out = []
+    if lhs.is_integral():
+        out.append((str(lhs), [{'name': 'DefiniteIntegralIdentity'}], 'definite'))
+    elif lhs.is_indefinite_integral():
+        out.append((str(lhs), [{'name': 'IndefiniteIntegralIdentity'}], 'indefinite'))
+        out.append(('INT %s:[1,2]. %s' % (lhs.var, lhs.body), [{'name': 'DefiniteIntegralIdentity'}], 'indefinite-as-definite'))
+    elif rhs.is_summation() and not lhs.is_summation():
+        out.append((str(lhs), [{'name': 'SeriesExpansionIdentity', 'old_expr': None, 'index_var': rhs.index_var}], 'series-expansion'))
+    elif lhs.is_summation() and not rhs.is_summation():
+        out.append((str(lhs), [{'name': 'SeriesEvaluationIdentity'}], 'series-evaluation'))
+    if 'simplify' in (it.get('attributes') or []):
+        out.append((str(lhs), [{'name': 'SimplifyIdentity'}], 'simplify'))
+        out.append(('(%s) + 1' % lhs, [{'name': 'FullSimplify'}], 'simplify-full'))
+    if it.get('category') and not (lhs.is_integral() or lhs.is_indefinite_integral() or rhs.is_summation() or lhs.is_summation()):
+        out.append((str(lhs), [{'name': 'ApplyIdentity', 'source': O.jsonable(O.to_shadow(lhs)),
+                                'target': O.jsonable(O.to_shadow(rhs))}], 'other-identity'))
+    return out
+
+
+def identity_contexts(conds):
+    """(kind, context conditions, dropped, negated): all / every proper subset / negation of exactly one condition"""
+    import itertools
+    k = len(conds)
+    out = [('all', list(conds), [], None)]
+    for r in range(k - 1, -1, -1):
+        for keep in itertools.combinations(range(k), r):
+            out.append(('subset', [conds[i] for i in keep], [conds[i] for i in range(k) if i not in keep], None))
+    for i in range(k):
+        n = negate_cond(conds[i])
+        if n is not None:
+            out.append(('negated', [n if j == i else conds[j] for j in range(k)], [], conds[i]))
+    return out
+
+
+def run_idcond(vctx, mon, books, osc_books=(), big=(3000000, 600000), part=None):
+    """drive every rule that applies an identity with side conditions, in contexts that establish all / only some /
+    the negation of one of the conditions; parameter values are drawn from the CONTEXT, so a rewrite performed
+    without the identity's condition is judged where the condition is false"""
+    std = (mon.budget, mon.per_eval)
+    for book in books:
+        try:
+            items = conditioned_identities(book)
+        except Exception as ex:
+            vctx.note('idcond: cannot read book %s: %s' % (book, ex))
+            continue
+        for idx, it in enumerate(items):
+            if part is not None and idx % part[1] != part[0]:
+                continue
+            try:
+                with quiet():
+                    variants = identity_rules(it)
+            except Exception:
+                vctx.count('idcond_identity_not_parsed')
+                continue
+            if not variants:
+                vctx.count('idcond_identity_without_rule')
+                continue
+            conds = list(it['conds'])
+            vctx.count('idcond_identities')
+            if len(conds) >= 2:
+                vctx.count('idcond_multi_condition_identities')
+            for e_str, chain, tag in variants:
+                try:
+                    e_json = O.jsonable(O.to_shadow(P(e_str)))
+                except Exception:
+                    vctx.count('idcond_parse_error')
+                    continue
+                for kind, cc, dropped, negated in identity_contexts(conds):
+                    O.ENABLE_OSC = book in osc_books
+                    mon.budget, mon.per_eval = big if book in osc_books else std
+                    ident = {'book': book, 'expr': it['expr'], 'conds': conds, 'context_kind': kind, 'dropped': dropped,
+                             'negated': negated}
+                    before = dict(vctx.counters)
+                    try:
+                        n = run_chain(vctx, mon, {'book': book, 'conds': cc}, e_json, chain, 'idcond/%s/%s' % (tag, kind),
+                                      identity=ident)
+                    finally:
+                        O.ENABLE_OSC = False
+                        mon.budget, mon.per_eval = std
+                    vctx.count('idcond_cases')
+                    vctx.count('idcond_context:' + kind)
+                    vctx.count('idcond_rule:' + chain[0]['name'])
+                    last = mon.last or {}
+                    vd = last.get('verdict') if n else 'raised'
+                    if vd in (None, 'identity', 'raised'):
+                        vctx.count('idcond_not_rewritten:' + kind)
+                    else:
+                        vctx.count('idcond_rewritten:' + kind)
+                        vctx.count('idcond_rewritten_verdict:%s:%s' % (kind, vd))
+
+
+def identity_conds_false_at(draws, cond_strs, defs=None):
+    """identity conditions that are numerically false at one of the violating parameter draws"""
+    from mpmath import mp, mpf
+    out = []
+    with mp.workdps(30):
+        ev = O.Ev(defs or {}, 20000)
+        for d in draws:
+            if d.get('status') != 'V' or not d.get('env'):
+                continue
+            env = {k: mpf(v) for k, v in d['env'].items()}
+            for c in cond_strs:
+                try:
+                    csh = O.to_shadow(P(c))
+                    if set(O.free_vars(csh)) <= set(env) and not ev.holds(csh, env) and c not in out:
+                        out.append(c)
+                except Exception:
+                    pass
+    return out
 
 
 # ------------------------------------------------------------------------------------------ auxiliary checks
